@@ -432,3 +432,22 @@ Proof.
   pose proof (X_rows c (JX_reach v np ops c Hv Hr) r x Hin) as Hn. unfold own in Hn. rewrite Eg in Hn.
   exact (endd_det c _ _ _ r res He Hn (proj2 Hst) Hres).
 Qed.
+
+(* the invariant in one statement *)
+Lemma lands_exists : forall c k, lands c k -> exists r, nreach c k r /\ settled c r.
+Proof.
+  intros c k H. induction H as [k Hs|k q Hn H [r [Hr Hs]]].
+  - exists k. split; [apply nr_refl|exact Hs].
+  - exists r. split; [eapply nr_step; eauto|exact Hs].
+Qed.
+
+Theorem join_resclosed_lands : forall v np ops c,
+  jv_alloc_table v = true -> jreach v np ops c ->
+  forall k, p_resclosed (getp c k) = true ->
+    exists r, nreach c k r /\ settled c r /\ (forall x, in_rows c r x -> jx_target (getx c x) <> None).
+Proof.
+  intros v np ops c Hv Hr k Hrc.
+  destruct (lands_exists c k (RC_reach v np ops c Hv Hr k Hrc)) as [r [Hn Hs]].
+  exists r. split; [exact Hn|]. split; [exact Hs|]. intros x Hin. exact (L_set c (JL_reach v np ops c Hr) r x Hs Hin).
+Qed.
+
